@@ -405,6 +405,10 @@ def _parse_color_256(desc: str) -> int | None:
     if len(desc) > 4:
         # keep the length within reason before parsing
         return None
+    number = desc[2:] if desc.startswith("g#") else desc[1:]
+    if not (number.isascii() and number.isalnum()):
+        # int() would also take signs, underscores, blanks and non-ASCII digits
+        return None
     try:
         if desc.startswith("h"):
             # high-color number
@@ -480,6 +484,10 @@ def _parse_color_88(desc: str) -> int | None:
     >>> _parse_color_88('g#80')
     83
     """
+    number = desc[2:] if desc.startswith("g#") else desc[1:]
+    if not (number.isascii() and number.isalnum()):
+        # int() would also take signs, underscores, blanks and non-ASCII digits
+        return None
     if len(desc) == 7:
         desc = desc[0:2] + desc[3] + desc[5]
     if len(desc) > 4:
